@@ -242,7 +242,9 @@ def obligations_for(g, prop, errors, breakdown, unit):
                     "text": f"no overflow / out-of-bounds / failed unwrap / unreachable / violated callee precondition in {f['name']} ({f['n_asserts']} source assertions included)",
                     "failed": sfail})
         # errors not attributed to any clause (e.g. postcondition whose clause line was not resolved)
-        other = [e for e in ferrs if e["kind"] not in SAFETY_KINDS and not any(e in o["failed"] for o in obs)]
+        all_clause_ids = {c["id"] for c in f["clauses"]}
+        other = [e for e in ferrs if e["kind"] not in SAFETY_KINDS and not any(e in o["failed"] for o in obs)
+                 and e.get("clause") not in all_clause_ids]    # a clause tagged for another property is that property's business
         if other and prop != "C08":
             obs.append({"id": base + "::unattributed", "kind": "other", "where": loc, "fn": f, "text": "verifier error not attributed to a clause", "failed": other})
     for l in g.lemmas:
